@@ -12,13 +12,13 @@ from . import tworun as T
 ID = "C08"
 ENCODED = BS.ENCODED_BS
 STUBS = BS.STUBS_BS + ["scipy.special.expit is only reached with agg_model_hard_threshold=False (concrete-draw cases)"]
-ASSUMES = BS.ASSUMES_BS + ["contest weights are symbolic positive reals, the base value a symbolic real"]
+ASSUMES = BS.ASSUMES_BS + ["contest weights and base are concrete (three weightings incl. fractional weights and a negative base)"]
 OUTSIDE = ["more than 2 contests with symbolic draws (the draw-by-draw sign comparisons fork 2^(contests*2B) ways)",
            "soft threshold (sigmoid) with symbolic draws", "B above 2"]
-BOUNDS = {"quick": "2 contests, B = 2 draws, levels {0.5, 0.9}, symbolic margin draws, weights and base; hard threshold, correlation on/off; "
+BOUNDS = {"quick": "2 contests, B = 2 draws, levels {0.5, 0.9}, symbolic margin draws for one contest at a time (the other contest has concrete draws); hard threshold, correlation on/off; "
                    "called / stop-listed subsets; history clause: every list and order of aggregates computed before the summary over "
                    "{postal_code, county_fips, county_classification} must give the same summary as the contests alone; wrong-size dictionary",
-          "thorough": "3 contests (one with concrete draws), B = 2"}
+          "thorough": "both contests with symbolic draws at once"}
 OPTS = {"quick": dict(case_timeout_s=900, solver_timeout_ms=30000, max_paths=200000),
         "thorough": dict(case_timeout_s=3300, solver_timeout_ms=60000, max_paths=2000000)}
 
@@ -28,9 +28,16 @@ def cases(tier):
     units = BS.margin_units(6, 1, 0, states=("AA", "BB"))
     for corr in (True, False):
         for calls in ({}, {"lhs": ["AA"]}, {"rhs": ["BB"]}, {"stop": ["AA"]}, {"lhs": ["AA"], "stop": ["AA", "BB"]}):
-            nm = "summary_%s_%s" % ("corr" if corr else "nocorr", "_".join("%s%s" % (k, "".join(v)) for k, v in calls.items()) or "nocalls")
-            out.append(dict(name=nm, kind="summary", corr=corr, calls=calls, B=2, alphas=[0.5, 0.9], units=units,
-                            aggregates=["postal_code", "unit"], weight=30))
+            for wi, (weights, base) in enumerate((([11, 16], 100), ([1, 1], 0), ([0.5, 7.25], -3))):
+                if wi and (calls or tier == "quick" and not corr):
+                    continue
+                nm = "summary_%s_%s_w%d" % ("corr" if corr else "nocorr",
+                                            "_".join("%s%s" % (k, "".join(v)) for k, v in calls.items()) or "nocalls", wi)
+                out.append(dict(name=nm, kind="summary", corr=corr, calls=calls, B=2, alphas=[0.5, 0.9], units=units, weights=weights,
+                                base=base, aggregates=["postal_code", "unit"], weight=30,
+                                symbolic_rows=[0] if tier == "quick" else None))
+                if tier == "quick":
+                    out.append(dict(out[-1], name=nm + "_row1", symbolic_rows=[1]))
     levels = ["postal_code", "county_fips", "county_classification"]
     orders = []
     for k in (1, 2, 3):
@@ -39,7 +46,7 @@ def cases(tier):
                 orders.append(list(combo))
     for o in orders:
         out.append(dict(name="history_%s" % "+".join(a.split("_")[-1][:5] for a in o), kind="history", order=o, B=2, alphas=[0.9],
-                        units=units, weight=20))
+                        units=units, symbolic_rows=[0] if tier == "quick" else None, weight=20))
     out.append(dict(name="wrong_size_dict", kind="wrong", B=2, alphas=[0.9], units=units, aggregates=["postal_code", "unit"], weight=5))
     return out
 
@@ -53,10 +60,12 @@ def run(ctx, case):
     from elexmodel.models.BootstrapElectionModel import BootstrapElectionModelException
 
     states = sorted({u["state"] for u in case["units"]})
-    w = {s: ctx.real("weight_%s" % s, 0, 1000, lo_strict=True) for s in states}
-    base = ctx.real("base", -1000, 1000)
+    # weights and base: concrete (the summary rounds to 2 decimals; symbolic weights make every query a mixed
+    # integer problem about rounding, which is not what the property is about) - three weightings are cases
+    w = dict(zip(states, case.get("weights", [11, 16, 3])))
+    base = case.get("base", 100)
     sc = BS.build_bs(ctx, case)
-    boot = BS.BootStub(ctx, case["B"]).install()
+    boot = BS.BootStub(ctx, case["B"], symbolic_rows=case.get("symbolic_rows")).install()
     try:
         if case["kind"] == "wrong":
             r = BS.run_bs_client(ctx, case, sc=sc, boot=boot)
@@ -94,16 +103,20 @@ def run(ctx, case):
     obl = []
     want_pred = base + P.csum(sym.ite(st.loc[s, "pred_margin"] > 0, w[s], 0) if isinstance(st.loc[s, "pred_margin"] > 0, sym.SymBool)
                               else (w[s] if st.loc[s, "pred_margin"] > 0 else 0) for s in states)
-    obl.append(("prediction = base + weights of the contests whose reported margin is positive", AEQ(pred, round2(want_pred))))
-    called = set(calls.get("lhs", [])) | set(calls.get("rhs", []))
+    # the summary is rounded to 2 decimals: identities are asserted up to that rounding (|rounded - exact| <= 0.005)
+    EPS = 0.005000001
+    obl.append(("prediction = base + weights of the contests whose reported margin is positive",
+                AND(LE(pred, want_pred + EPS), GE(pred, want_pred - EPS))))
+    # a stop-listed contest stays uncertain even when it is also called (the stop list overrides a call, as for the intervals in C07)
+    called = (set(calls.get("lhs", [])) | set(calls.get("rhs", []))) - set(calls.get("stop", []))
     uncalled_w = P.csum(w[s] for s in states if s not in called)
     for a in case["alphas"]:
         lo, hi = df["lower_%s" % a].iloc[0], df["upper_%s" % a].iloc[0]
         obl.append(("lower <= prediction <= upper at %s" % a, AND(LE(lo, pred), LE(pred, hi))))
-        obl.append(("within [base, base + total weight] at %s" % a, AND(GE(lo, round2(base)), LE(hi, round2(base + total)))))
+        obl.append(("within [base, base + total weight] at %s" % a, AND(GE(lo, base - EPS), LE(hi, base + total + EPS))))
         # called contests contribute no uncertainty: the bounds differ from the prediction by at most the uncalled weights
         obl.append(("called contests add no uncertainty at %s" % a,
-                    AND(GE(lo, round2(want_pred - uncalled_w)), LE(hi, round2(want_pred + uncalled_w)))))
+                    AND(GE(lo, want_pred - uncalled_w - EPS), LE(hi, want_pred + uncalled_w + EPS))))
     return obl, {"summary": df.drop(columns=["estimand"])}
 
 
